@@ -787,7 +787,21 @@ def _patch_engine():
     E.pev_UnaryOp = pev_UnaryOp
 
     def pev_BoolOp(self, node, st, m):
-        vals = [self.pev(v, st, m) for v in node.values]
+        if m.checks is not None and not m.spec:
+            # short circuit: the implicit exceptions of a later operand can only happen when it is evaluated at all
+            vals = []
+            guard = []
+            for v in node.values:
+                sub_checks = []
+                m2 = Mode(m.spec, m.old, sub_checks, m.result, m.binds, m.under)
+                sv = self.pev(v, st, m2)
+                for (ok, exc, nd) in sub_checks:
+                    m.checks.append((Implies(And(*guard), ok) if guard else ok, exc, nd))
+                vals.append(sv)
+                t = self.truth(sv, st)
+                guard.append(t if isinstance(node.op, ast.And) else Not(t))
+        else:
+            vals = [self.pev(v, st, m) for v in node.values]
         if all(v.kind == "bool" for v in vals) or m.spec:
             ts = [self.truth(v, st) for v in vals]
             return sv_bool(And(*ts) if isinstance(node.op, ast.And) else Or(*ts))
@@ -822,6 +836,16 @@ def _patch_engine():
 
     def pev_IfExp(self, node, st, m):
         c = self.truth(self.pev(node.test, st, m), st)
+        if m.checks is not None and not m.spec:
+            # only the chosen arm is evaluated: its implicit exceptions are conditional on the test
+            arms = []
+            for arm, g in ((node.body, c), (node.orelse, Not(c))):
+                sub_checks = []
+                sv = self.pev(arm, st, Mode(m.spec, m.old, sub_checks, m.result, m.binds, m.under))
+                for (ok, exc, nd) in sub_checks:
+                    m.checks.append((Implies(g, ok), exc, nd))
+                arms.append(sv)
+            return self.ite_sv(c, arms[0], arms[1], st)
         return self.ite_sv(c, self.pev(node.body, st, m), self.pev(node.orelse, st, m), st)
     E.pev_IfExp = pev_IfExp
 
@@ -3258,6 +3282,21 @@ def _patch_calls():
             return self.fork(has, st, present, lambda st2: k(args[1], st2), node)
         self.branch_checks([(has, "KeyError", node)], st, ctx, present)
     E.bm_dict_pop = bm_dict_pop
+
+    def bm_dict___setitem__(self, recv, args, node, st, ctx, k):
+        kk = self.to_v(args[0])
+        keys = self.hget(st, "$dkeys", recv.t)
+        vals = self.hget(st, "$dval", recv.t)
+        st2 = self.hset(st, "$dval", recv.t, Store(vals, kk, self.to_v(args[1])))
+        k(NONE, self.hset(st2, "$dkeys", recv.t, If(L.mem(keys, kk), keys, L.app(keys, kk))))
+    E.bm_dict___setitem__ = bm_dict___setitem__
+
+    def bm_dict___delitem__(self, recv, args, node, st, ctx, k):
+        kk = self.to_v(args[0])
+        keys = self.hget(st, "$dkeys", recv.t)
+        self.branch_checks([(L.mem(keys, kk), "KeyError", node)], st, ctx,
+                           lambda st2: k(NONE, self.hset(st2, "$dkeys", recv.t, self.seq_remove(keys, kk))))
+    E.bm_dict___delitem__ = bm_dict___delitem__
 
     def bm_dict_clear(self, recv, args, node, st, ctx, k):
         k(NONE, self.hset(st, "$dkeys", recv.t, L.sempty))
